@@ -36,16 +36,17 @@ OPS = {"Attribution", "DialSafety", "Whitelist"}
 GEN = {
     "quick": {"pair": ("SecureSwarmGen_pair.cfg", "mc"), "answer": ("SecureSwarmGen_answer_quick.cfg", "mc"),
               "auth": ("SecureSwarmGen_auth_quick.cfg", "mc"), "authwl": ("SecureSwarmGen_authwl_quick.cfg", "mc"),
-              "race": ("SecureSwarmGen_race_quick.cfg", "mc"),
+              "race": ("SecureSwarmGen_race_quick.cfg", "mc"), "cred": ("SecureSwarmGen_cred_quick.cfg", "mc"),
               "mixed": ("SecureSwarmGen_mixed.cfg", "sim")},
     "thorough": {"pair": ("SecureSwarmGen_pair.cfg", "mc"), "answer": ("SecureSwarmGen_answer_thorough.cfg", "mc"),
                  "auth": ("SecureSwarmGen_auth_thorough.cfg", "mc"), "race": ("SecureSwarmGen_race_thorough.cfg", "mc"),
+                 "cred": ("SecureSwarmGen_cred_thorough.cfg", "mc"),
                  "mixed": ("SecureSwarmGen_mixed.cfg", "sim")},
 }
 # how many scripts of each (family, kind) are replayed; None = all
 CAP = {
-    "quick": {"pair": 40, "answer": 30, "auth": {"ssh": None, "p2pke": 36, "quic": 36}, "authwl": 20, "race": None, "mixed": 40},
-    "thorough": {"pair": None, "answer": 400, "auth": {"ssh": None, "p2pke": 500, "quic": 400}, "race": None, "mixed": 400},
+    "quick": {"pair": 25, "answer": 20, "auth": {"ssh": None, "p2pke": 24, "quic": 24}, "authwl": 15, "race": None, "cred": None, "mixed": 25},
+    "thorough": {"pair": None, "answer": 400, "auth": {"ssh": None, "p2pke": 500, "quic": 400}, "race": None, "cred": None, "mixed": 400},
 }
 SIM = {"quick": 40, "thorough": 400}
 
@@ -53,16 +54,19 @@ SIM = {"quick": 40, "thorough": 400}
 MC = {
     "quick": [("one", "MC_SecureSwarm", "SecureSwarm_one.cfg", 4, None),
               ("wl", "MC_SecureSwarm", "SecureSwarm_wl.cfg", 4, None),
+              ("cred", "MC_SecureSwarm", "SecureSwarm_cred.cfg", 2, None),
               ("sshauth", "MC_SSHAuth", "SSHAuth_fixed.cfg", 1, None),
+              ("self-cred", "MC_SecureSwarm", "SecureSwarm_weak_cred.cfg", 1, "Attribution"),
               ("self-f13", "MC_SecureSwarm", "SecureSwarm_weak_f13.cfg", 1, "Attribution"),
-              ("self-f35", "MC_SecureSwarm", "SecureSwarm_weak_f35.cfg", 1, "Whitelist"),
-              ("self-dial", "MC_SecureSwarm", "SecureSwarm_weak_dial.cfg", 1, "DialSafety")],
+              ("self-f35", "MC_SecureSwarm", "SecureSwarm_weak_f35.cfg", 1, "Whitelist")],
     "thorough": [("wl_full", "MC_SecureSwarm", "SecureSwarm_wl_full.cfg", 4, None),
                  ("two_quic", "MC_SecureSwarm", "SecureSwarm_two_quic.cfg", 4, None),
                  ("two_p2pke", "MC_SecureSwarm", "SecureSwarm_two_p2pke.cfg", 4, None),
                  ("deep", "MC_SecureSwarm", "SecureSwarm_deep.cfg", 4, None),
                  ("two_ssh", "MC_SecureSwarm", "SecureSwarm_two_ssh.cfg", 4, None),
                  ("two_wl", "MC_SecureSwarm", "SecureSwarm_two_wl.cfg", 4, None),
+                 ("cred", "MC_SecureSwarm", "SecureSwarm_cred.cfg", 2, None),
+                 ("self-cred", "MC_SecureSwarm", "SecureSwarm_weak_cred.cfg", 1, "Attribution"),
                  ("sshauth", "MC_SSHAuth", "SSHAuth_fixed.cfg", 1, None),
                  ("sshauth-smallcache", "MC_SSHAuth", "SSHAuth_fixed_smallcache.cfg", 1, None),
                  ("self-sshauth-f13", "MC_SSHAuth", "SSHAuth_f13.cfg", 1, "RecordedIsProven"),
@@ -127,7 +131,13 @@ def pick(tier, fam, bs):
 
 
 def role(k):
-    return "own" if k == "M" else "victim"
+    return "own" if k == "M" else ("own-ecdsa" if k == "Me" else "victim")
+
+
+def cred(st):
+    """presentation of a script step: leaf role, proof, and the unproven extra certificate if any"""
+    x = st.get("extra", "-")
+    return "%s-%s" % (role(st["k"]), st["proof"]) + ("" if x in ("-", "", None) else "+unproven-%s-cert" % role(x))
 
 
 def scenario(beh, ev, auth_wire, op):
@@ -140,7 +150,7 @@ def scenario(beh, ev, auth_wire, op):
         if a in ("query", "signed"):
             steps.append(("query" if a == "query" else "sign") + "-" + role(st["k"]))
         elif a == "present":
-            steps.append("present-%s-%s" % (role(st["k"]), st["proof"]))
+            steps.append("present-" + cred(st))
     if auth_wire:
         # what really went over the wire (a bare Signed(k) is sent as Query(k), Signed(k))
         steps = [("query" if w[0] == "q" else "sign") + "-" + role(w[1]) for w in auth_wire]
@@ -163,17 +173,18 @@ def scenario(beh, ev, auth_wire, op):
             return pre + ident + "-after-inbound-handshake"
         if any(a in before for a in ("present", "signed", "query")):
             return pre + ident + "-over-inbound-connection"
-    sender = next((st for st in hist if st.get("p") == p and st["a"] in ("tell", "reply", "msend")), None)
+    sender = next((st for st in hist if st.get("p") == p and st["a"] in ("tell", "reply", "msend", "lookup")), None)
     if sender is not None and sender["a"] == "msend" and sender.get("role") == "dial" and dedup:
         return "-then-".join(dedup)
     if op == "DialSafety" and sender is not None and sender["a"] == "reply" and dedup:
         return "reply-after-" + "-then-".join(dedup)
-    to_m = [st for st in tells if st.get("t") == "M"]
+    to_m = [st for st in hist if st["a"] in ("tell", "lookup") and st.get("t") == "M"]
     if to_m and (sender is None or sender["a"] == "msend" or sender.get("t") == "M"):
         ml = [st for st in hist if st["a"] == "mlisten"]
-        pol = "claim-%s-%s" % (role(ml[-1]["k"]), ml[-1]["proof"]) if ml else "claim-own-own"
-        mine = sender if sender is not None and sender["a"] == "tell" else to_m[0]
-        return "answer/%s/dialled-%s-identity" % (pol, "right" if mine["x"] == "M" else "wrong")
+        pol = "claim-" + cred(ml[-1]) if ml else "claim-own-own"
+        mine = sender if sender is not None and sender["a"] in ("tell", "lookup") else to_m[0]
+        return "%sanswer/%s/dialled-%s-identity" % ("lookup-" if ev.get("ev") == "lookup" else "", pol,
+                                                     "right" if mine["x"] == "M" else "wrong")
     if op == "DialSafety" and sender is not None and sender["a"] == "tell":
         before = any(st["p"] < p and {st["n"], st.get("t")} == {sender["n"], sender["t"]} for st in tells)
         return "wrong-identity" + ("-existing-connection" if before else "-first-dial")
@@ -249,7 +260,7 @@ def run_pipeline(tier, replay_behaviour=None):
         b["id"] = i + 1
     byid = {b["id"]: b for b in behs}
     # several replay processes (sshswarm never closes its connections: descriptors are released at exit)
-    nproc = 1 if len(behs) < 60 else (4 if tier == "quick" else 6)
+    nproc = 1 if len(behs) < 60 else 6
     chunks = [behs[i::nproc] for i in range(nproc)]
 
     def replay(i, chunk):
